@@ -6,6 +6,7 @@ import (
 	"fmt"
 	"runtime"
 	"sort"
+	"strconv"
 	"strings"
 	"sync"
 	"sync/atomic"
@@ -35,7 +36,7 @@ const (
 var c33KindNames = []string{"ok", "fail", "follower", "cancel", "late"}
 
 type c33Plan struct {
-	Mode     string // base | run | errcb | batch
+	Mode     string // base | errbase (explicit NewJob/Done/Wait on NewBaseJobWorker / NewErrCallbackJobWorker) | run | errcb | batch
 	W        int64  // worker size (batch: limit)
 	N        int    // jobs (batch: size)
 	Kinds    []int
@@ -44,12 +45,19 @@ type c33Plan struct {
 	DoneAt   int    // base: Done() is called after this many submissions, the rest is still submitted
 	PrefFail int    // batch: index of the batch whose preparation fails, -1 = none
 	LateUS   int    // delay before the late gate opens
+	StopAt   int    // base, errbase: right after this many submissions the submitter stops the worker (StopHow); -1 = never
+	StopHow  string // cancel (wk.Cancel) | close (wk.Close) | parent (the context the worker was made with is cancelled)
 }
+
+func (p c33Plan) explicit() bool { return p.Mode == "base" || p.Mode == "errbase" }
+
+// errMode: the worker hands job errors to the error callback; a failing job does not cancel anything.
+func (p c33Plan) errMode() bool { return p.Mode == "errcb" || p.Mode == "errbase" }
 
 func (p c33Plan) fingerprint() string {
 	var b strings.Builder
 
-	fmt.Fprintf(&b, "%s|w%d|n%d|d%d|p%d|", p.Mode, p.W, p.N, p.DoneAt, p.PrefFail)
+	fmt.Fprintf(&b, "%s|w%d|n%d|d%d|p%d|s%d%s|", p.Mode, p.W, p.N, p.DoneAt, p.PrefFail, p.StopAt, p.StopHow)
 
 	for i := range p.Kinds {
 		b.WriteByte("ofFcl"[p.Kinds[i]])
@@ -63,8 +71,8 @@ func (p c33Plan) fingerprint() string {
 }
 
 func c33GenPlan(t *rapid.T) c33Plan {
-	p := c33Plan{PrefFail: -1}
-	p.Mode = rapid.SampledFrom([]string{"base", "base", "run", "run", "errcb", "batch", "batch"}).Draw(t, "mode")
+	p := c33Plan{PrefFail: -1, StopAt: -1}
+	p.Mode = rapid.SampledFrom([]string{"base", "base", "base", "errbase", "run", "run", "errcb", "batch", "batch"}).Draw(t, "mode")
 	p.W = int64(rapid.SampledFrom([]int{1, 1, 2, 3, 4, 8, 16}).Draw(t, "w"))
 
 	switch rapid.IntRange(0, 9).Draw(t, "sizeClass") {
@@ -87,8 +95,11 @@ func c33GenPlan(t *rapid.T) c33Plan {
 	}
 
 	shape := rapid.SampledFrom([]string{"nofail", "nofail", "single", "single", "single", "multi", "multi", "cancel"}).Draw(t, "shape")
-	if p.Mode == "errcb" && shape == "cancel" {
-		shape = "multi"
+
+	// accepted-then-stopped: the submitter itself stops the worker right after a NewJob call returned
+	if p.explicit() && p.N > 0 && rapid.IntRange(0, 2).Draw(t, "stops") == 0 {
+		p.StopAt = rapid.IntRange(1, p.N).Draw(t, "stopAt")
+		p.StopHow = rapid.SampledFrom([]string{"cancel", "close", "parent"}).Draw(t, "stopHow")
 	}
 
 	p.Kinds = make([]int, p.N)
@@ -104,7 +115,7 @@ func c33GenPlan(t *rapid.T) c33Plan {
 		switch {
 		case k < 3:
 			p.Kinds[i] = c33Late
-		case k < 6 && shape != "nofail" && p.Mode != "errcb":
+		case k < 6 && (shape != "nofail" || p.StopAt >= 0):
 			p.Kinds[i] = c33Follower
 		case k < 8 && shape == "multi":
 			p.Kinds[i] = c33Fail
@@ -126,25 +137,37 @@ func c33GenPlan(t *rapid.T) c33Plan {
 		}
 	}
 
-	// followers are only legal after the first job that certainly cancels the worker context
+	// followers are only legal after the first job that certainly cancels the worker context (an error-callback worker
+	// is not cancelled by a failing job), or - fewer than the worker size, so that a slot stays free and the submitter
+	// is never parked for good - in front of the point where the submitter stops the worker.
 	trigger := -1
 
 	for i := range p.Kinds {
-		if p.Kinds[i] == c33Fail || p.Kinds[i] == c33Cancel {
+		if p.Kinds[i] == c33Cancel || (p.Kinds[i] == c33Fail && !p.errMode()) {
 			trigger = i
 
 			break
 		}
 	}
 
+	early := int64(0)
+
 	for i := range p.Kinds {
-		if p.Kinds[i] == c33Follower && (trigger < 0 || i < trigger) {
-			p.Kinds[i] = c33OK
+		if p.Kinds[i] != c33Follower || (trigger >= 0 && i > trigger) {
+			continue
 		}
+
+		if i < p.StopAt && early < p.W-1 {
+			early++
+
+			continue
+		}
+
+		p.Kinds[i] = c33OK
 	}
 
 	p.DoneAt = p.N
-	if p.Mode == "base" && p.N > 0 && rapid.IntRange(0, 3).Draw(t, "doneEarly") == 0 {
+	if p.explicit() && p.N > 0 && rapid.IntRange(0, 3).Draw(t, "doneEarly") == 0 {
 		p.DoneAt = rapid.IntRange(0, p.N).Draw(t, "doneAt")
 	}
 
@@ -165,6 +188,7 @@ type c33Exec struct {
 	ran      []atomic.Int32
 	fin      []atomic.Int32
 	retErr   []atomic.Bool
+	sawDone  []atomic.Bool  // the job was handed a context that was already done when it started
 	lastArg  []atomic.Int64 // batch: the `last` value job i was given (+1; 0 = not called)
 	started  atomic.Int64
 	finished atomic.Int64
@@ -184,7 +208,7 @@ type c33Exec struct {
 func c33NewExec(p c33Plan) *c33Exec {
 	x := &c33Exec{
 		p: p, errs: make([]error, p.N), ran: make([]atomic.Int32, p.N), fin: make([]atomic.Int32, p.N),
-		retErr: make([]atomic.Bool, p.N), lastArg: make([]atomic.Int64, p.N),
+		retErr: make([]atomic.Bool, p.N), sawDone: make([]atomic.Bool, p.N), lastArg: make([]atomic.Int64, p.N),
 		startSeq: make([]atomic.Int64, p.N), endSeq: make([]atomic.Int64, p.N),
 		release: make(chan struct{}), late: make(chan struct{}),
 		prefErr: errors.New("c33: injected preparation error"),
@@ -203,6 +227,10 @@ func (x *c33Exec) job(ctx context.Context, i int) (err error) {
 	x.started.Add(1)
 	x.ran[i].Add(1)
 	x.startSeq[i].Store(x.seq.Add(1))
+
+	if ctx.Err() != nil {
+		x.sawDone[i].Store(true)
+	}
 
 	defer func() {
 		if err != nil {
@@ -261,26 +289,84 @@ func (x *c33Exec) matches(err error) (idx []int, pref, canceled bool) {
 	return idx, errors.Is(err, x.prefErr), errors.Is(err, context.Canceled)
 }
 
-// quiesce waits (bounded, real time) until every started job finished; returns false on a budget hit.
-func (x *c33Exec) quiesce(want int64) bool {
-	deadline := time.Now().Add(10 * time.Second)
-	stable := 0
+// c33Census lists the live goroutines of the process (id -> header and top frame) without the runtime's own ones.
+// Goroutine ids are never reused, so "alive now and not in an earlier census" is exactly "started since and not yet gone".
+func c33Census() map[int64]string {
+	buf := make([]byte, 1<<16)
 
-	for time.Now().Before(deadline) {
-		s, f := x.started.Load(), x.finished.Load()
-		if s == f && (want < 0 || f >= want) {
-			stable++
-			if stable >= 3 {
-				return true
-			}
-		} else {
-			stable = 0
+	for {
+		n := runtime.Stack(buf, true)
+		if n < len(buf) {
+			buf = buf[:n]
+
+			break
 		}
 
-		time.Sleep(200 * time.Microsecond)
+		buf = make([]byte, 2*len(buf))
 	}
 
-	return false
+	out := map[int64]string{}
+
+	for _, blk := range strings.Split(string(buf), "\n\n") {
+		if !strings.HasPrefix(blk, "goroutine ") || strings.Contains(blk, "\ncreated by runtime.") {
+			continue
+		}
+
+		rest := blk[len("goroutine "):]
+
+		sp := strings.IndexByte(rest, ' ')
+		if sp < 0 {
+			continue
+		}
+
+		id, err := strconv.ParseInt(rest[:sp], 10, 64)
+		if err != nil {
+			continue
+		}
+
+		lines := strings.SplitN(blk, "\n", 3)
+		if len(lines) > 2 {
+			lines = lines[:2]
+		}
+
+		out[id] = strings.Join(lines, " ")
+	}
+
+	return out
+}
+
+// drain waits until no goroutine that came into being since the census `before` is left. The harness's own goroutines
+// have been joined by then, so what is left was started by the code under test on behalf of this case; once they are
+// all gone nothing can run a job of this case any more and the run counters are final. That makes "an accepted job was
+// never run" a fact about the process, not a guess after a delay. Only the budget is real time; hitting it is inconclusive.
+func c33Drain(before map[int64]string) (left []string, ok bool) {
+	deadline := time.Now().Add(15 * time.Second)
+
+	for spin := 0; ; spin++ {
+		left = left[:0]
+
+		for id, what := range c33Census() {
+			if _, found := before[id]; !found {
+				left = append(left, what)
+			}
+		}
+
+		if len(left) < 1 {
+			return nil, true
+		}
+
+		if time.Now().After(deadline) {
+			sort.Strings(left)
+
+			return left, false
+		}
+
+		if spin < 50 {
+			runtime.Gosched()
+		} else {
+			time.Sleep(200 * time.Microsecond)
+		}
+	}
 }
 
 func c33Describe(p c33Plan) string {
@@ -303,35 +389,59 @@ func c33Describe(p c33Plan) string {
 		}
 	}
 
-	return fmt.Sprintf("mode=%s worker=%d jobs=%d doneAt=%d prefFail=%d special=[%s]", p.Mode, p.W, p.N, p.DoneAt, p.PrefFail, strings.Join(ks, " "))
+	stop := "never"
+	if p.StopAt >= 0 {
+		stop = fmt.Sprintf("%s-after-%d-submissions", p.StopHow, p.StopAt)
+	}
+
+	return fmt.Sprintf("mode=%s worker=%d jobs=%d doneAt=%d stop=%s prefFail=%d special=[%s]", p.Mode, p.W, p.N, p.DoneAt, stop, p.PrefFail, strings.Join(ks, " "))
 }
 
 func TestC33(t *testing.T) {
 	r := ev.Start(t, "C33")
 	defer r.Finish()
-	r.Rule("plans: mode {BaseJobWorker with explicit NewJob/Done/Wait, RunJobWorker, RunErrCallbackJobWorker, BatchWork} x worker size 1..16 / batch limit 1..50 " +
+	r.Rule("plans: mode {BaseJobWorker / ErrCallbackJobWorker with explicit NewJob/Done/Wait, RunJobWorker, RunErrCallbackJobWorker, BatchWork} x worker size 1..16 / batch limit 1..50 " +
 		"x 0..200 jobs of kinds {ok, fail with a distinct error, follower (fails only after the worker context was cancelled), external cancel, late (still running when Wait starts)} " +
-		"with drawn yields, Done() before the last submission, failing batch preparation. " +
-		"non-trivial: >= 2 batches, or a failing job that reported its error while other jobs were in flight / still to be submitted; distinct by (mode, sizes, kind string)")
+		"with drawn yields, Done() before the last submission, the submitter stopping the worker (Cancel / Close / parent context) right after a NewJob call returned, failing batch preparation. " +
+		"non-trivial: >= 2 batches, or a failing job that reported its error while other jobs were in flight / still to be submitted, or a stop right after an accepted job; distinct by (mode, sizes, stop, kind string)")
 	r.Floor(100)
-	r.Assume("'waits for all jobs' and 'exactly once at return' are judged on the no-error path; with errors: at most once, checked after a quiescence wait",
+	r.Assume("'waits for all jobs' and 'finished at return' are judged on the no-error path",
+		"'every accepted job runs exactly once' (NewJob returned nil => the callback is invoked once, possibly with a context that is already done) is judged on every path, cancelled or failed ones included, "+
+			"once no goroutine started since the beginning of the case is left (goroutine census; the harness's own goroutines are joined first), so 'never ran' is a fact and not a timeout; acceptance is observable only where the harness calls NewJob itself",
 		"the first error is demanded exactly only where the order is determined: worker size 1, or one failing job whose followers fail only after observing the cancellation; otherwise membership in the set of errors jobs actually returned",
-		"RunErrCallbackJobWorker is documented to ignore job errors: all jobs run, nil is returned, every error reaches the callback",
-		"external cancellation: only at-most-once and error membership are judged")
+		"error-callback workers are documented to ignore job errors: nil is returned (context.Canceled only after a cancellation from outside), and the callback receives exactly the errors jobs returned, each once",
+		"external cancellation and a submitter that stops the worker: run counts, error membership and the error callback are judged, not which error Wait returns")
 
-	r.Checks(1000, 100000)
+	r.Checks(1500, 100000)
 	r.ShrinkTime(20 * time.Second)
 
 	rapid.Check(t, func(rt *rapid.T) {
 		p := c33GenPlan(rt)
 		x := c33NewExec(p)
 
+		before := c33Census() // nothing of this case exists yet
+
 		parent, cancel := context.WithCancel(context.Background())
 		defer cancel()
 		x.cancel = cancel
 
-		// late gate + watchdog
+		// late gate + watchdog (the harness's own goroutines; joined before the goroutine census below)
+		var (
+			own          sync.WaitGroup
+			returned     = make(chan struct{})
+			returnedOnce sync.Once
+		)
+
+		defer func() { // also when a violation unwinds: let everything of this case run out
+			returnedOnce.Do(func() { close(returned) })
+			x.openRelease()
+		}()
+
+		own.Add(2)
+
 		go func() {
+			defer own.Done()
+
 			if p.LateUS > 0 {
 				time.Sleep(time.Duration(p.LateUS) * time.Microsecond)
 			}
@@ -339,12 +449,15 @@ func TestC33(t *testing.T) {
 			close(x.late)
 		}()
 
-		returned := make(chan struct{})
-
 		go func() {
+			defer own.Done()
+
+			watch := time.NewTimer(20 * time.Second)
+			defer watch.Stop()
+
 			select {
 			case <-returned:
-			case <-time.After(20 * time.Second):
+			case <-watch.C:
 				x.watchdog.Store(true)
 				x.openRelease()
 			}
@@ -368,14 +481,47 @@ func TestC33(t *testing.T) {
 		batchOf := func(i int) int { return i / limit }
 		batchEnd := func(b int) int { return min((b+1)*limit, p.N) }
 
+		errf := func(err error) {
+			errfLock.Lock()
+			errfGot = append(errfGot, err)
+			errfLock.Unlock()
+		}
+
 		switch p.Mode {
-		case "base":
-			wk, err := util.NewBaseJobWorker(parent, p.W)
+		case "base", "errbase":
+			var (
+				wk  *util.BaseJobWorker
+				err error
+			)
+
+			if p.Mode == "base" {
+				wk, err = util.NewBaseJobWorker(parent, p.W)
+			} else {
+				wk, err = util.NewErrCallbackJobWorker(parent, p.W, errf)
+			}
+
 			if err != nil {
-				rt.Fatalf("NewBaseJobWorker: %v", err)
+				rt.Fatalf("new worker: %v", err)
+			}
+
+			stop := func() {
+				x.cancelled.Store(true)
+
+				switch p.StopHow {
+				case "cancel":
+					wk.Cancel()
+				case "close":
+					wk.Close()
+				default:
+					cancel()
+				}
 			}
 
 			for i := 0; i < p.N; i++ {
+				if i == p.StopAt {
+					stop() // NewJob(i-1) has just returned
+				}
+
 				if i == p.DoneAt {
 					wk.Done()
 				}
@@ -387,6 +533,10 @@ func TestC33(t *testing.T) {
 				}
 			}
 
+			if p.StopAt == p.N {
+				stop()
+			}
+
 			if p.DoneAt >= p.N {
 				wk.Done()
 			}
@@ -395,11 +545,7 @@ func TestC33(t *testing.T) {
 		case "run":
 			callErr = util.RunJobWorker(parent, p.W, int64(p.N), func(ctx context.Context, i, _ uint64) error { return x.job(ctx, int(i)) })
 		case "errcb":
-			callErr = util.RunErrCallbackJobWorker(parent, p.W, int64(p.N), func(err error) {
-				errfLock.Lock()
-				errfGot = append(errfGot, err)
-				errfLock.Unlock()
-			}, func(ctx context.Context, i, _ uint64) error { return x.job(ctx, int(i)) })
+			callErr = util.RunErrCallbackJobWorker(parent, p.W, int64(p.N), errf, func(ctx context.Context, i, _ uint64) error { return x.job(ctx, int(i)) })
 		case "batch":
 			callErr = util.BatchWork(parent, int64(p.N), p.W,
 				func(_ context.Context, last uint64) error {
@@ -446,7 +592,7 @@ func TestC33(t *testing.T) {
 		}
 
 		// ---- snapshot at return
-		close(returned)
+		returnedOnce.Do(func() { close(returned) })
 
 		finAtReturn := make([]int32, p.N)
 		errAtReturn := make([]bool, p.N)
@@ -466,7 +612,7 @@ func TestC33(t *testing.T) {
 			rt.Fatalf("c33: watchdog fired (call did not return within 20 s): %s", desc)
 		}
 
-		hasCancel := false
+		hasCancel := p.StopAt >= 0 // the submitter stopped the worker: like a cancellation from outside
 		nfail := 0
 
 		for _, k := range p.Kinds {
@@ -536,7 +682,7 @@ func TestC33(t *testing.T) {
 
 		expectAllRanAtReturn := func(upto int, what string) {
 			for i := 0; i < upto; i++ {
-				if p.Mode == "base" && !accepted[i] {
+				if p.explicit() && !accepted[i] {
 					continue
 				}
 
@@ -599,32 +745,37 @@ func TestC33(t *testing.T) {
 					}
 				}
 			}
-		case "errcb":
-			if callErr != nil {
-				r.Violation(rt, "errcallback-worker-returned-error", "%s: returned %q; this worker hands job errors to the callback and goes on", desc, callErr)
+		case "errcb", "errbase":
+			// job errors go to the callback and never into the returned error; only a cancellation from outside may come back
+			if callErr != nil && !(hasCancel && isCanceled && len(idx) == 0 && x.cancelled.Load()) {
+				r.Violation(rt, "errcallback-worker-returned-error", "%s: returned %q; this worker hands job errors to the callback and goes on (cancellation from outside requested: %v)",
+					desc, callErr, x.cancelled.Load())
 			}
 
-			expectAllRanAtReturn(p.N, "RunErrCallbackJobWorker")
+			if !hasCancel {
+				// nothing cancels: every accepted job (RunErrCallbackJobWorker: every job) has finished and every error was handed over at return
+				expectAllRanAtReturn(p.N, "the error-callback worker")
 
-			var want, got []string
+				var want, got []string
 
-			for i, k := range p.Kinds {
-				if k == c33Fail {
-					want = append(want, x.errs[i].Error())
+				for i, k := range p.Kinds {
+					if k == c33Fail && (!p.explicit() || accepted[i]) {
+						want = append(want, x.errs[i].Error())
+					}
 				}
-			}
 
-			errfLock.Lock()
-			for _, e := range errfGot {
-				got = append(got, e.Error())
-			}
-			errfLock.Unlock()
+				errfLock.Lock()
+				for _, e := range errfGot {
+					got = append(got, e.Error())
+				}
+				errfLock.Unlock()
 
-			sort.Strings(want)
-			sort.Strings(got)
+				sort.Strings(want)
+				sort.Strings(got)
 
-			if strings.Join(want, "\n") != strings.Join(got, "\n") {
-				r.Violation(rt, "errcallback-errors-mismatch", "%s: error callback received %d errors %v, jobs returned %d", desc, len(got), got, len(want))
+				if strings.Join(want, "\n") != strings.Join(got, "\n") {
+					r.Violation(rt, "errcallback-errors-mismatch", "%s: error callback received %d errors %v, jobs returned %d", desc, len(got), got, len(want))
+				}
 			}
 		case "batch":
 			nb := (p.N + limit - 1) / limit
@@ -744,14 +895,18 @@ func TestC33(t *testing.T) {
 			}
 		}
 
-		// ---- quiescence: nothing runs twice, nothing refused runs, everything accepted ran
-		want := int64(-1)
-		if p.Mode == "base" {
-			want = naccepted
+		// ---- quiescence: the harness's goroutines are joined, then every goroutine the code under test started for this
+		// case is awaited (goroutine census, see c33Drain). After that nothing can run a job any more: nothing ran twice,
+		// nothing refused ran, everything accepted ran exactly once - also when the worker was stopped, or a job failed,
+		// right after NewJob had accepted the job - and the error callback got exactly the errors jobs returned.
+		own.Wait()
+
+		if left, ok := c33Drain(before); !ok {
+			rt.Fatalf("c33: goroutines of this case still alive after 15 s (started %d finished %d accepted %d): %s: %v", x.started.Load(), x.finished.Load(), naccepted, desc, left)
 		}
 
-		if !x.quiesce(want) {
-			rt.Fatalf("c33: no quiescence within 10 s (started %d finished %d accepted %d): %s", x.started.Load(), x.finished.Load(), naccepted, desc)
+		if s, f := x.started.Load(), x.finished.Load(); s != f {
+			rt.Fatalf("c33: harness: %d job bodies entered, %d left, and no goroutine is left: %s", s, f, desc)
 		}
 
 		for i := 0; i < p.N; i++ {
@@ -761,14 +916,37 @@ func TestC33(t *testing.T) {
 				r.Violation(rt, "job-ran-twice", "%s: job %d ran %d times", desc, i, n)
 			}
 
-			if p.Mode == "base" {
+			if p.explicit() {
 				if !accepted[i] && n != 0 {
 					r.Violation(rt, "refused-job-ran", "%s: job %d was refused by NewJob but ran", desc, i)
 				}
 
 				if accepted[i] && n != 1 {
-					r.Violation(rt, "accepted-job-not-run", "%s: job %d was accepted but ran %d times", desc, i, n)
+					r.Violation(rt, "accepted-job-not-run", "%s: NewJob returned nil for job %d but the job ran %d times (want exactly once; no goroutine is left that could still run it)", desc, i, n)
 				}
+			}
+		}
+
+		if p.errMode() {
+			var want, got []string
+
+			for i := range x.retErr {
+				if x.retErr[i].Load() {
+					want = append(want, x.errs[i].Error())
+				}
+			}
+
+			errfLock.Lock()
+			for _, e := range errfGot {
+				got = append(got, e.Error())
+			}
+			errfLock.Unlock()
+
+			sort.Strings(want)
+			sort.Strings(got)
+
+			if strings.Join(want, "\n") != strings.Join(got, "\n") {
+				r.Violation(rt, "errcallback-errors-mismatch", "%s: after everything ran out the error callback had received %d errors %v, jobs had returned %d %v", desc, len(got), got, len(want), want)
 			}
 		}
 
@@ -796,11 +974,24 @@ func TestC33(t *testing.T) {
 			}
 		}
 
-		nontrivial := (p.Mode == "batch" && nb >= 2) || failedInFlight
+		// the submitter stopped the worker right after a NewJob call that had accepted a job
+		stoppedAfterAccept := p.explicit() && p.StopAt >= 1 && accepted[p.StopAt-1]
+
+		ranDone := 0 // jobs that were run with a context that was already done
+
+		for i := range x.sawDone {
+			if x.sawDone[i].Load() {
+				ranDone++
+			}
+		}
+
+		nontrivial := (p.Mode == "batch" && nb >= 2) || failedInFlight || stoppedAfterAccept
 
 		shape := "nofail"
 
 		switch {
+		case p.StopAt >= 0:
+			shape = "submitter-stops"
 		case hasCancel:
 			shape = "extcancel"
 		case nfail == 1:
@@ -816,8 +1007,16 @@ func TestC33(t *testing.T) {
 			classes = append(classes, "worker:>1")
 		}
 
-		if p.Mode == "base" && p.DoneAt < p.N {
+		if p.explicit() && p.DoneAt < p.N {
 			classes = append(classes, "done-early")
+		}
+
+		if stoppedAfterAccept {
+			classes = append(classes, "stopped-right-after-accept:"+p.StopHow)
+		}
+
+		if ranDone > 0 {
+			classes = append(classes, "job-ran-with-done-context")
 		}
 
 		if p.PrefFail >= 0 {
@@ -841,7 +1040,7 @@ func TestC33(t *testing.T) {
 		r.Case(p.fingerprint(), nontrivial, classes...)
 
 		if nontrivial && r.WantSample() {
-			r.Sample(map[string]any{"plan": desc, "returned": fmt.Sprint(callErr), "batches": nb, "in_flight_at_error": x.inflightAtFail.Load()})
+			r.Sample(map[string]any{"plan": desc, "returned": fmt.Sprint(callErr), "batches": nb, "in_flight_at_error": x.inflightAtFail.Load(), "accepted": naccepted, "ran_with_done_context": ranDone})
 		}
 	})
 }
